@@ -18,4 +18,23 @@ UNITS = [
              ensures=[("exactly-one", "(result[0] is None) != (result[1] is None)")],
              twins=[("never-an-error", "result[1] is None")],
              use_as_callee=False, replay="native.c01:replay_constant_set"),
+
+    # C01: no IndexError / assertion while looking at the parsed pattern; C06: a pattern function that passes
+    # without an error is non-empty and anchored (one alternative, '^' first and '$' last)
+    Contract("aas_core_codegen.intermediate._translate:_verify_patterns_anchored_at_start_and_end", ["C01", "C06"],
+             loops={1: Loop(invariants=[("nothing", "True")],
+                            body_ensures=[
+                                ("accepted-pattern-is-anchored",
+                                 "implies(appended_count(errors) == 0 and is_kind(verification, PatternVerification), "
+                                 "len(regex.union.uniates) == 1 and len(regex.union.uniates[0].concatenants) >= 1 "
+                                 "and is_kind(regex.union.uniates[0].concatenants[0].value, parse_retree.Symbol) "
+                                 "and regex.union.uniates[0].concatenants[0].value.kind is parse_retree.SymbolKind.START "
+                                 "and is_kind(regex.union.uniates[0].concatenants[-1].value, parse_retree.Symbol) "
+                                 "and regex.union.uniates[0].concatenants[-1].value.kind is parse_retree.SymbolKind.END)")],
+                            body_twins=[("every-pattern-is-reported", "appended_count(errors) == 1")])},
+             opaque=["aas_core_codegen.parse.retree._parse:render_pointer"],
+             use_as_callee=False, replay="native.c01:replay_pattern_function"),
 ]
+UNITS[-1].assume_preconditions = ["aas_core_codegen.parse.retree._parse:render_pointer"]
+UNITS[-1].assume_preconditions_why = ("the cursor of the returned error is the parser's own cursor over the one-element "
+                                      "list [verification.pattern]; the contract of parse() does not carry that identity")
